@@ -16,7 +16,7 @@ LineViol(e) ==
   IF e.pan = 1 THEN {"C15_SchedulerPanics"}
   ELSE IF e.result # "done" THEN {}
   ELSE LET W == WOf(e)  T == TOf(e)  m == MOf(e) IN
-       (IF DOMAIN m \subseteq DOMAIN T /\ WithinCapacity(W, T, m) THEN {} ELSE {"AUX_DecisionWithinCapacity"}) \cup
+       (IF DOMAIN m \subseteq DOMAIN T /\ WithinCapacity(W, T, m) THEN {} ELSE {"C05_DecisionWithinCapacity"}) \cup
        (IF DOMAIN m \subseteq DOMAIN T /\ PriorityRespecting(W, T, m, SSet(e.prefilled)) THEN {} ELSE {"C15_PriorityRespected"})
 
 TraceInit == l = 1 /\ viol = {}
